@@ -45,7 +45,8 @@ def main():
             "level_claimed": {"category": "model_checking", "text": txt, "design_ref": "DESIGN.md section " + ref},
             "level_note": "; ".join(P.PROPS[pid]["assumptions"]),
             "technique": ("TLA+ spec: TLC exhaustive model checking of the implementation-shaped model + " if has_mc else "TLA+ spec: ") +
-                         "TLC trace validation of events recorded from the real code (and TLC-generated behaviours replayed into it)",
+                         "TLC trace validation of events recorded from the real code (and TLC-generated behaviours replayed into it)" +
+                         ("; Apalache inductive invariant (unbounded) for the pass-planning loop" if P.PROPS[pid].get("apalache") else ""),
         })
     na = [{"property_id": p, "reason": "check not built yet"} for p in props if p not in P.PROPS]
     hooks_commits = os.popen("git -C /repo log --format=%H --grep='^verif_hooks'").read().split()
